@@ -7,6 +7,7 @@ from typing import TypeVar
 from geneticengine.exceptions import GeneticEngineError
 
 from geneticengine.grammar.grammar import Grammar
+from geneticengine.grammar.metahandlers.base import SynthesisException
 from geneticengine.random.sources import RandomSource
 from geneticengine.representations.api import (
     RepresentationWithCrossover,
@@ -78,6 +79,9 @@ class DynamicSGEDecider(SynthesisDecider):
         alternatives = [
             x for x in alternatives if self.grammar.get_distance_to_terminal(x) <= (self.max_depth - ctx.depth)
         ]
+        if not alternatives:
+            # only possible after backtracking has ruled out every production that fits
+            raise SynthesisException(f"No production of {ty} fits the remaining depth")
         return alternatives[v % len(alternatives)]
 
     def choose_options(self, alternatives: list[T], ctx: LocalSynthesisContext) -> T:
